@@ -138,18 +138,30 @@ def check_procedure(case):
     try:
         sset, mask, modified = call_iterfit(case)
     except Exception as e:
+        # was it a failure path (a refit that is ill-posed)?  Those are C09's subject, not C10's.
+        try:
+            from pydl.pydlutils.bspline import bspline
+            with warnings.catch_warnings():
+                warnings.simplefilter('ignore')
+                t = np.asarray(bspline(np.sort(x[w > 0]), nord=k, **knot_kwargs(case['knots'])).breakpoints, dtype=np.float64)
+            status = reference_loop(t, k, x, y, w, case['upper'], case['lower'], m + 1 if m > 0 else 1)[3]
+        except Exception:
+            status = 'unknown'
+        if status == 'ill-posed':
+            return [], 'skip', False, 'iterfit raised %s in %s when a refit became ill-posed (failure reporting is C09)' % (type(e).__name__, where_raised(e.__traceback__))
         return [('iterfit:exception:%s@%s' % (type(e).__name__, where_raised(e.__traceback__)), repr(e))], 'bad:exception', True, None
     bad = []
     if modified:
         bad.append(('iterfit:input-modified', ''))
     if mask.shape != x.shape or mask.dtype != bool:
         return [('iterfit:mask-shape', '%r' % (mask,))], 'bad:mask-shape', True, None
-    if np.any(mask[w <= 0]):
-        bad.append(('iterfit:mask-true-at-nonpositive-invvar', 'invvar %s mask %s' % (w.tolist(), mask.tolist())))
     t = np.asarray(sset.breakpoints, dtype=np.float64)
+    fits, masks, conv, status = reference_loop(t, k, x, y, w, case['upper'], case['lower'], m + 1 if m > 0 else 1)
+    if np.any(mask[w <= 0]):
+        bad.append(('iterfit:mask-true-at-nonpositive-invvar:' + ('a-refit-is-ill-posed' if status == 'ill-posed' else 'all-fits-well-posed'),
+                    'invvar %s mask %s' % (w.tolist(), mask.tolist())))
     if not np.asarray(sset.mask).all():
         return bad, 'skip', False, 'pydl masked a breakpoint (failure path, C09)'
-    fits, masks, conv, status = reference_loop(t, k, x, y, w, case['upper'], case['lower'], m + 1 if m > 0 else 1)
     if status != 'ok':
         return bad, 'skip', False, {'ill-posed': 'a reference fit is rank deficient or ill conditioned (segment unsupported after rejection)',
                                     'band': 'a rejection decision lies within 1e-6 sigma of a threshold'}[status]
@@ -268,14 +280,17 @@ def zero_menu(n, T):
 
 
 def order_configs(T):
+    """7-point configurations for the all-permutations layer (each is well-posed throughout its reference loop)."""
     c = []
     for k in (2, 3, 4):
-        c.append({'n': 7, 'k': k, 'knots': ['nbkpts', 3 if k < 4 else 2], 'zero': [], 'out': [], 'ivpat': 0, 'upper': 5, 'lower': 5, 'maxiter': 0})
-        c.append({'n': 7, 'k': k, 'knots': ['nbkpts', 2], 'zero': [3], 'out': [[1, 50.0]], 'ivpat': 1, 'upper': 5, 'lower': 5, 'maxiter': 10})
-        c.append({'n': 7, 'k': k, 'knots': ['bkspace', 2.5] if k < 4 else ['nbkpts', 2], 'zero': [0, 6], 'out': [[2, -50.0], [5, 6.0]], 'ivpat': 0, 'upper': 3, 'lower': 5, 'maxiter': 2})
+        kn = ['nbkpts', 3] if k == 2 else ['nbkpts', 2]
+        if T or k == 3:
+            c.append({'n': 7, 'k': k, 'knots': kn, 'zero': [], 'out': [], 'ivpat': 0, 'upper': 5, 'lower': 5, 'maxiter': 0})
+        c.append({'n': 7, 'k': k, 'knots': kn, 'zero': [3], 'out': [[1, 12.0]], 'ivpat': 0, 'upper': 3, 'lower': 5, 'maxiter': 10})
+        c.append({'n': 7, 'k': k, 'knots': kn, 'zero': [0, 6], 'out': [[3, -12.0]], 'ivpat': 0, 'upper': 5, 'lower': 5, 'maxiter': 2})
         if T:
-            c.append({'n': 7, 'k': k, 'knots': ['nbkpts', 2], 'zero': [5], 'out': [[0, 50.0], [6, -50.0]], 'ivpat': 1, 'upper': 3, 'lower': 3, 'maxiter': 1})
-            c.append({'n': 7, 'k': k, 'knots': ['nbkpts', 2], 'zero': [], 'out': [[3, 6.0]], 'ivpat': 0, 'upper': 3, 'lower': 3, 'maxiter': 10})
+            c.append({'n': 7, 'k': k, 'knots': kn, 'zero': [0], 'out': [[2, -20.0], [5, 6.0]], 'ivpat': 0, 'upper': 5, 'lower': 5, 'maxiter': 1})
+            c.append({'n': 7, 'k': k, 'knots': kn, 'zero': [], 'out': [[2, -20.0], [5, 6.0]], 'ivpat': 0, 'upper': 5, 'lower': 5, 'maxiter': 10})
     return c
 
 
@@ -350,6 +365,10 @@ def run_task(task):
     if part == 'O':
         cfg = dict(task['cfg'], part='O')
         base = None
+        gate = check_procedure(dict(cfg, part='P'))[3]
+        if gate:
+            acc.skip('order layer: ' + gate, 720)
+            return acc
         for rest in itertools.permutations([i for i in range(7) if i != task['first']]):
             perm = [task['first']] + list(rest)
             case = dict(cfg, perm=perm)
@@ -366,6 +385,10 @@ def run_task(task):
                 if len(zero) and len(out) and zero[0] == out[0][0]:
                     continue
                 base = None
+                gate = check_procedure(dict(cfg, part='P'))[3]
+                if gate:
+                    acc.skip('order layer: ' + gate, len(perms12(n)))
+                    continue
                 for perm in perms12(n):
                     case = dict(cfg, perm=perm)
                     bad, base = check_order(cfg, perm, base)
